@@ -343,6 +343,7 @@ func TestCheck(t *testing.T) {
 
 	restored(t, rep, base, sc)
 	reopened(t, rep, base)
+	kekDown(t, rep, base)
 	tamper(t, env, rep, base)
 	if err := rep.Write(env); err != nil {
 		t.Fatal(err)
@@ -543,4 +544,112 @@ func reopened(t *testing.T, rep *report.Report, base string) {
 		sec.Samples = append(sec.Samples, fmt.Sprintf("database %d: %d KEK uses during Open, 0 afterwards", hi, after))
 	}
 	sec.States, sec.Transitions = sec.Evaluations, sec.Evaluations
+}
+
+// downAEAD is a key-encryption key whose service becomes unreachable: once down, every use fails
+// (and is counted).
+type downAEAD struct {
+	inner tink.AEAD
+	down  atomic.Bool
+	n     atomic.Int64
+}
+
+func (c *downAEAD) Encrypt(pt, ad []byte) ([]byte, error) {
+	if c.down.Load() {
+		c.n.Add(1)
+		return nil, fmt.Errorf("key service unreachable")
+	}
+	return c.inner.Encrypt(pt, ad)
+}
+func (c *downAEAD) Decrypt(ct, ad []byte) ([]byte, error) {
+	if c.down.Load() {
+		c.n.Add(1)
+		return nil, fmt.Errorf("key service unreachable")
+	}
+	return c.inner.Decrypt(ct, ad)
+}
+
+// kekDown: "a running server does not depend on the key service". The same operation sequence, with a
+// save that fails at a chosen operation and file-system call, runs once with the key service up and
+// once with the key service unreachable from the moment Open returned; every answer and every
+// served state must be identical, and the unreachable key must never have been asked.
+func kekDown(t *testing.T, rep *report.Report, base string) {
+	sec := rep.Add(&report.Section{Name: "key-service-down-after-open-with-failing-saves", Engine: "fsx", Exhaustive: true, Extra: map[string]int64{},
+		Rule: "an 8-operation sequence on two pre-states × {no fault, an injected error at file-system call 0..5 of the save of each mutating operation}: run with the key-encryption key available and again with it failing from the moment Open returned; results, served state after every operation and the reopened file must agree, and the key must not be used after Open; non-trivial = runs with an injected fault"})
+	inner := hx.NewKEK()
+	hists := [][]Op{{{Kind: "put", Name: 0, Val: 0}}, {{Kind: "put", Name: 0, Val: 0}, {Kind: "put", Name: 0, Val: 1}, {Kind: "put", Name: 1, Val: 2}}}
+	ops := []Op{{Kind: "get", Name: 0}, {Kind: "put", Name: 0, Val: 2}, {Kind: "put", Name: 2, Val: 1}, {Kind: "activate", Name: 0, Ver: 2}, {Kind: "delver", Name: 0, Ver: 1}, {Kind: "delete", Name: 1}, {Kind: "put", Name: 1, Val: 0}, {Kind: "list"}}
+	run := func(hi int, faultOp, faultCall int, down bool) (trace []string, uses int64) {
+		dir := filepath.Join(base, fmt.Sprintf("kekdown%d", hi))
+		os.RemoveAll(dir)
+		os.MkdirAll(dir, 0o700)
+		p := filepath.Join(dir, "db")
+		d0, err := db.Open(p, inner, hx.Discard())
+		if err != nil {
+			t.Fatal(err)
+		}
+		for _, o := range hists[hi] {
+			apply(d0, o)
+		}
+		kek := &downAEAD{inner: inner}
+		d, err := db.Open(p, kek, hx.Discard())
+		if err != nil {
+			t.Fatal(err)
+		}
+		kek.down.Store(down)
+		for i, o := range ops {
+			var rec *fsx.Recorder
+			if i == faultOp {
+				rec = fsx.NewRecorder(dir)
+				rec.Baseline()
+				rec.FaultAt = faultCall
+				vos.SetHook(rec)
+			}
+			err := apply(d, o)
+			if rec != nil {
+				vos.SetHook(nil)
+			}
+			trace = append(trace, fmt.Sprintf("%s(%d) -> %s ; state %s", o.Kind, o.Name, hx.Classify(err), hx.DumpKey(d)))
+		}
+		if d2, err := db.Open(p, inner, hx.Discard()); err != nil {
+			trace = append(trace, "reopen: "+err.Error())
+		} else {
+			trace = append(trace, "reopen: "+hx.DumpKey(d2))
+		}
+		return trace, kek.n.Load()
+	}
+	for hi := range hists {
+		type fp struct{ op, call int }
+		points := []fp{{-1, -1}}
+		for i, o := range ops {
+			if o.Kind == "put" || o.Kind == "activate" || o.Kind == "delver" || o.Kind == "delete" {
+				for c := 0; c < 6; c++ {
+					points = append(points, fp{i, c})
+				}
+			}
+		}
+		for _, pt := range points {
+			up, _ := run(hi, pt.op, pt.call, false)
+			dn, uses := run(hi, pt.op, pt.call, true)
+			sec.Evaluations++
+			if pt.op >= 0 {
+				sec.Nontrivial++
+			}
+			desc := "no fault"
+			if pt.op >= 0 {
+				desc = fmt.Sprintf("save of operation %d (%s) fails at its file-system call %d", pt.op, ops[pt.op].Kind, pt.call)
+			}
+			if uses != 0 {
+				rep.Violate(sec.Name, fmt.Sprintf("kek-used-while-down: database %d fault %v", hi, pt), fmt.Sprintf("database %d, %s: the key-encryption key was asked %d time(s) after Open had returned", hi, desc, uses), map[string]any{"db": hi, "fault_op": pt.op, "fault_call": pt.call})
+			}
+			for i := range up {
+				if i < len(dn) && up[i] != dn[i] {
+					rep.Violate(sec.Name, fmt.Sprintf("depends-on-key-service: database %d fault %v", hi, pt), fmt.Sprintf("database %d, %s: with the key service unreachable after Open step %d reads %q, with it reachable %q", hi, desc, i, dn[i], up[i]), map[string]any{"db": hi, "fault_op": pt.op, "fault_call": pt.call})
+					break
+				}
+			}
+		}
+	}
+	sec.States, sec.Transitions = sec.Evaluations, sec.Evaluations*int64(len(ops))
+	sec.Samples = append(sec.Samples, fmt.Sprintf("%d runs of %d operations, each with the key service up and down", sec.Evaluations, len(ops)))
 }
